@@ -129,8 +129,6 @@ def run(tier):
             exprs = gql.all_type_exprs(kind, 4)
             schema, doc, expected = build_case(kind, position, exprs)
             for fmt in ("sdl", "json"):
-                if fmt == "json" and position == "oneof_member":
-                    continue  # @oneOf through introspection JSON is decided by C07
                 cases.append({"position": position, "kind": kind, "fmt": fmt, "schema": schema, "doc": doc,
                               "expected": expected})
     reqs = []
@@ -222,7 +220,7 @@ def run(tier):
         "evaluations": len(reqs) + validated, "distinct_nontrivial": states,
         "rule": "state = (type expression of list depth <= 4, kind of named type, position, schema format); all 62 "
                 "expressions x 10 output / 8 input kinds x 4 positions x 2 formats (the @oneOf position only for "
-                "nullable outermost expressions and SDL); transition = comparison of the emitted field type with the "
+                "nullable outermost expressions); transition = comparison of the emitted field type with the "
                 "model rule, plus one conformance run per (field, null injected at nesting level) on compiled code",
         "exhaustive": True,
         "generator_calls": len(reqs), "modules_compiled": len(farm.cases),
